@@ -394,7 +394,7 @@ PROPS = {
                  "handles, every extern fn: make/is/get for every kind, push/get/set/remove/len on lists, insert/get/remove/keys/len on "
                  "dicts, grid from rows (with meta)/len/row_at, to/from Zinc and JSON, filter parse/match_dict/first_match/match_all, "
                  "utc/tz datetime constructors and getters, destroy, result holders that are fresh or already own data, borrowed entry "
-                 "pointers passed back as entries, a failure left unread followed by another failure; arguments valid / wrong kind / out of range / null / non-UTF-8 / "
+                 "pointers passed back as entries, a failure left unread followed by another failure, filters written from the live data so that grid matches select rows (match_all compared as a whole grid: columns and meta too), failing calls that quote 1..1100-byte texts of 1/2/3/4-byte characters (error-text sweep); arguments valid / wrong kind / out of range / null / non-UTF-8 / "
                  "invalid text. Every handle is mirrored by a harness-side Value on which the corresponding Rust operation is applied. "
                  "After each call: the return value equals the model's; on failure the documented sentinel (None/null, usize::MAX, "
                  "u32::MAX, NaN, ERR) AND a non-null last_error_message() that is cleared by reading it; on success no stale error; all "
@@ -403,7 +403,7 @@ PROPS = {
                         "set_list_entry_at: the documentation says both 'set' and 'insert at'; only get(i)==entry and 'other elements keep "
                         "their order' are asserted, not the length",
                         "a container is never passed as its own entry (aliasing &mut/& is outside the protocol)"],
-        "require_strata": {"both": ["sequence"]},
+        "require_strata": {"both": ["sequence", "capi:filter-grid:some-row-matches", "error-text-completed"]},
         "min_evals": {"quick": 100_000, "thorough": 3_000_000},
     },
     "C18": {
@@ -419,7 +419,7 @@ PROPS = {
                  "evaluations = calls; distinct = distinct histories + sweep sites"),
         "assumptions": ["the model's bookkeeping holds only pointers it owns and frees them at teardown, so a leak inside the library is unreachable at exit and reported by LSan",
                         "ASan's red-zone blind spots (non-adjacent overflow, reuse of the same size class) are covered only by the small Miri subset"],
-        "require_strata": {"both": ["sequence", "null-sweep", "null-sweep-completed"]},
+        "require_strata": {"both": ["sequence", "null-sweep", "null-sweep-completed", "error-text-completed"]},
         "min_evals": {"quick": 100_000, "thorough": 3_000_000},
     },
 }
